@@ -108,7 +108,19 @@ inductive PTy where
   | tvec (k n : Nat)
   /-- `matrix<T, x, y>` -/
   | tmat (k x y : Nat)
+  /-- `T p[len]`.  (An array of a scalar is the layer `other (arrayId s len)`: `find` only compares array types.) -/
+  | tarr (k len : Nat)
   deriving DecidableEq, Repr
+
+/-- position of a scalar kind in `ir::ScalarType` -/
+def scalarIdx (s : Scalar) : Nat := Scalar.all.idxOf s
+
+/-- the `other` id under which the correspondence protocol names the type `s[len]` (1 ≤ len ≤ 9) -/
+def arrayId (s : Scalar) (len : Nat) : Nat := 100 + 10 * scalarIdx s + len
+
+/-- the array type behind an `other` id of the protocol -/
+def arrayOf? (id : Nat) : Option (Scalar × Nat) :=
+  if 100 ≤ id ∧ id < 200 ∧ (id - 100) % 10 ≠ 0 then (Scalar.all[(id - 100) / 10]?).map fun s => (s, (id - 100) % 10) else none
 
 structure TParam where
   pat : PTy
@@ -145,6 +157,15 @@ def tryInfer (i : Nat) : PTy → Ty → Option Ty
     if t.mod = {} then
       match t.layer with
       | .matrix s x' y' => if x = x' ∧ y = y' ∧ k = i then some ⟨{}, .scalar s⟩ else none
+      | _ => none
+    else none
+  | .tarr k len, t =>
+    if t.mod = {} then
+      match t.layer with
+      | .other id =>
+        match arrayOf? id with
+        | some (s, len') => if len = len' ∧ k = i then some ⟨{}, .scalar s⟩ else none
+        | none => none
       | _ => none
     else none
   | .conc _, _ => none
@@ -204,6 +225,15 @@ def kindsAgree : List TKind → List TArg → Bool
 def isPlainScalar (t : Ty) : Option Scalar :=
   if t.mod = {} then match t.layer with | .scalar s => some s | _ => none else none
 
+def substPTyArr (targs : List TArg) (k len : Nat) : Except String Ty :=
+  match targs[k]? with
+  | some (.type t) =>
+    match isPlainScalar t with
+    | some s => .ok ⟨{}, .other (arrayId s len)⟩
+    -- an array of a non-scalar is a legal type, but not one the protocol can name
+    | none => .error "unsupported: array of a non-scalar"
+  | _ => .error "types.rs: todo!(\"Non-type template arguments\")"
+
 /-- `apply_template_type_substitution` on one parameter type.  `.error` = the panic of `TypeRegistry::register_type`
     ("… inside vector" / "… inside matrix") when the argument for `T` in `vector<T, n>` is not a plain scalar, or the
     `todo!()` when a parameter type names a value parameter. -/
@@ -227,6 +257,7 @@ def substPTy (targs : List TArg) : PTy → Except String Ty
       | some s => .ok ⟨{}, .matrix s x y⟩
       | none => .error "ir_types.rs: inside matrix"
     | _ => .error "types.rs: todo!(\"Non-type template arguments\")"
+  | .tarr k len => substPTyArr targs k len
 
 def substParams (targs : List TArg) : List TParam → Except String (List Param)
   | [] => .ok []
